@@ -118,6 +118,8 @@ def cq_stmt3(st):
         return "SDoltCommit true"
     if st[1] == K_DADD:
         return "SAdd"
+    if 12 <= st[1] <= 15:
+        return "SReadAs %d" % (st[1] - 12)
     return "SBase (%s)" % G.cq_stmt(st)
 
 
